@@ -78,6 +78,8 @@ def run(pid, tier):
     cfg = "MC_AppScen_c10_quick.cfg" if tier == "quick" else "MC_AppScen_c10_thorough.cfg"
     scen, obs, traces = appcommon.run_scenarios(ctx, cfg, lambda s: True, {"C10"})
     appcommon.validate(ctx, scen, obs, traces, {"C10"}, appcommon.classify_reject)
+    # the fix / scan runs of the repository's own tests (probes on) against the same specification
+    appcommon.suite_traces(ctx, tier, {"C10"})
 
     # ---- real documents: sets of 1..3 corpus files through every mode, validated against Trace_App
     docs = corpus.rule_docs()
